@@ -68,8 +68,10 @@ class Report:
                 shown += 1
         if len(groups) > shown:
             print("... %d more violation groups for %s (replays written)" % (len(groups) - shown, self.prop))
-        for m in self.machinery:
-            print("MACHINERY-ERROR property=%s %s" % (self.prop, m))
+        for m in self.machinery[:3]:
+            print("MACHINERY-ERROR property=%s %s" % (self.prop, m[:600]))
+        if len(self.machinery) > 3:
+            print("MACHINERY-ERROR property=%s ... %d more" % (self.prop, len(self.machinery) - 3))
         ev = {"property_id": self.prop, "tier": self.tier, "seed": self.seed, "level": level,
               "coverage": coverage, "assumptions": assumptions,
               "wall_s": round(time.time() - self.t0, 2), "violations": len(self.violations)}
